@@ -232,6 +232,9 @@ def regex_batch_cases(ctx, rng, n, stream):
 
 
 def run(ctx: Ctx):
+    from ..rules_common import interpreter_modes
+
+    interpreter_modes(ctx, "errors")
     run_witnesses(ctx)
     quick = ctx.quick()
     maxlen = 5
